@@ -164,8 +164,11 @@ bool Json::Private::readToken()
               return syntaxError(pos, "Unexpected end of file"), false;
             default:
               value.append('\\');
-              value.append(*pos.pos);
-              ++pos.pos;
+              if(*pos.pos != '\r' && *pos.pos != '\n') // line breaks are consumed (and counted) by the enclosing loop
+              {
+                value.append(*pos.pos);
+                ++pos.pos;
+              }
               break;
             }
           }
